@@ -55,8 +55,18 @@ func NewSolver(kind string, timeoutMs int) (*Solver, error) {
 	var cmd *exec.Cmd
 	switch kind {
 	case "cvc5":
-		cmd = exec.Command("cvc5", "--incremental", "--produce-models", "--strings-exp",
-			"--lang=smt2", fmt.Sprintf("--tlimit-per=%d", timeoutMs))
+		args := []string{"--incremental", "--produce-models", "--strings-exp",
+			"--lang=smt2", fmt.Sprintf("--tlimit-per=%d", timeoutMs)}
+		// measured on the C11 structured-URL queries: 10x faster sat answers with many bounded
+		// regular-membership constraints (agentC); SYMGO_CVC5_OPTS="-" disables, other values replace.
+		switch extra := os.Getenv("SYMGO_CVC5_OPTS"); extra {
+		case "":
+			args = append(args, "--strings-eager-len-re")
+		case "-":
+		default:
+			args = append(args, strings.Fields(extra)...)
+		}
+		cmd = exec.Command("cvc5", args...)
 	case "z3", "z3-new":
 		cmd = exec.Command(kind, "-in", "-smt2", fmt.Sprintf("-t:%d", timeoutMs))
 	default:
